@@ -242,7 +242,7 @@ theorem good_restart {opts g h i c} (hinv : Inv opts g h) (hc : g.cs[i]? = some 
         · exact hcs
         · exact check_restart_faulty .code _ _ c ha
         · intro j bj _ _
-          exact check_restart_sibling_code _ _ bj
+          exact check_restart_sibling .code _ _ bj
       · apply sig_same <;> first | rfl | simp
     · have := inv_group (f' := { f1 with cs := mapGroup f1 all i (fun _ c => (restartOne c).1) }) i c
         (fun _ c => (restartOne (recordFault (window g.sup) g.now c)).1) true hinv hc ha rfl rfl hcs
